@@ -189,7 +189,9 @@ def build_inputs(rng, root):
     pf = gen.gen_plotfile(rng, ndims=3, max_blocks=2, nfields=(3, 4), nlevels=rng.choice([1, 2]), payload='random')
     pf.fields = [f.replace(' ', '_') for f in pf.fields]
     keys = c01.reader_keys(pf.fields)
-    p = os.path.join(root, 'run', 'plt_00010')
+    # the input's own name may look like a tool's default output (a cooked '_ck', a combined '_cb') or hold dots
+    r2 = random.Random(repr(rng.getstate()[1][:8]))
+    p = os.path.join(root, 'run', r2.choice(['plt_00010', 'plt_00010', 'plt_00010_ck', 'plt_t0.25', 'plt_00010_cb', 'plt_00010_ck']))
     os.makedirs(os.path.dirname(p))
     diskimg.write_image(diskimg.image_of(pf), p)
     sib = c06.second_plotfile(rng, pf, 'different')
